@@ -24,7 +24,7 @@ OS = "osaca/osaca.py"
 TRUSTED = ["pyvc symbolic semantics; z3 5.1.0", "parser.normalize_imd / get_full_reg_name enter as uninterpreted attributes of the operands (their post-processing is C09/C10)"]
 ASSUMPTIONS = [
     "input space of the property: exactly one start marker followed by exactly one end marker; every instruction line whose mnemonic is mov/movl and that is followed by a directive has two operands (otherwise the code raises IndexError)",
-    "match_bytes: structural bound 3 .byte lines x 4 parameters (values symbolic) - label Pb",
+    "match_bytes: structural bound 3 .byte lines x 0-4 parameters, plus 4 lines x 0-2 parameters for the four-byte marker (values symbolic) - label Pb",
     "get_line_range / inspect selection: the --lines string enters through ghost structure (items, kinds, numbers); the effect of str.replace/split/in/int on it is an assumed contract (A) stated in lines_ghost; the end-to-end clauses are bounded only",
 ]
 I, B = z3.IntSort(), z3.BoolSort()
@@ -136,7 +136,10 @@ def match_bytes_unit(res):
     ex = Engine([REPO + "/" + f for f in ("osaca/parser/operand.py", "osaca/parser/directive.py", "osaca/parser/instruction_form.py", MU)])
     import itertools
     for marker in ([100, 103, 144], [213, 3, 32, 31]):
-        for layout in itertools.product(range(0, 5), repeat=3):  # number of parameters of up to three consecutive .byte lines
+        # number of parameters of up to three consecutive .byte lines (0-4 each) and, for the four-byte marker, of four lines
+        # with 0-2 parameters each (one byte per line is the layout IACA's AArch64 marker is usually written in)
+        layouts = list(itertools.product(range(0, 5), repeat=3)) + ([l for l in itertools.product(range(0, 3), repeat=4) if l[3]] if len(marker) == 4 else [])
+        for layout in layouts:
             if 0 in layout and any(x for x in layout[layout.index(0):]):
                 continue
             nlines = len([x for x in layout if x])
